@@ -683,6 +683,29 @@ def r_shift(E):
                         rel, n.lineno, q))
                 elif len(res.samples) < 4:
                     res.samples.append({"file": rel, "function": q, "site": norm(n)[:80], "verdict": "index shift"})
+    # the shift operation of hourly values moves the *labels* of the frame it is given (gaps and all): its result is
+    # `self.value.shift(n, freq=…)`, not values re-attached to a freshly generated contiguous range
+    rel, fn = pm.find_function(EO, "ExplainableHourlyQuantities.return_shifted_hourly_quantities")
+    res.instances += 1
+    from ..astutil import fully_expanded
+    ok = False
+    for r in [x for x in ast.walk(fn) if isinstance(x, ast.Return) and x.value is not None]:
+        v = fully_expanded(r.value, fn)
+        first = v.args[0] if isinstance(v, ast.Call) and v.args else next(
+            (k.value for k in getattr(v, "keywords", []) if k.arg == "value"), None)
+        if isinstance(first, ast.Call) and isinstance(first.func, ast.Attribute) and first.func.attr == "shift" \
+                and norm(first.func.value) in ("self.value", "self.value.copy()") \
+                and any(k.arg == "freq" for k in first.keywords):
+            ok = True
+    if not ok:
+        regen = any(isinstance(c, ast.Call) and norm(c.func).endswith("date_range") for c in ast.walk(fn))
+        res.findings.append(Finding(
+            "R-SHIFT", "return_shifted_hourly_quantities is an index shift",
+            "return_shifted_hourly_quantities no longer returns `self.value.shift(n, freq=…)`" +
+            (": it re-attaches the values to a regenerated contiguous hourly range, so in a series with a gap (a sum of "
+             "series over disjoint periods, a UTC conversion across the end of daylight saving) every value after the gap "
+             "lands on the wrong hour" if regen else ": values may no longer keep their own timestamps"),
+            rel, fn.lineno, fn.name))
     res.floor = 3     # one per function that shifts: occurrences averaging, storage dumps, return_shifted_… (6 sites today)
     return res
 
